@@ -132,7 +132,7 @@ def gen(
             else getfile(get_module(imports_from_file, extra_symbols=extra_symbols)),
             "rt",
         ) as f:
-            imports = "".join(
+            imports = "\n".join(
                 map(to_code, get_at_root(ast.parse(f.read()), (Import, ImportFrom)))
             )
 
